@@ -53,6 +53,9 @@ impl Rng {
     }
 }
 
+/// scales of the large triangles
+const BIG_N: [i64; 3] = [1 << 27, 100_000_000, 1 << 30];
+
 impl C13 {
     fn pt(&self, p: P) -> Point {
         pt0((p.0 + self.off.0, p.1 + self.off.1))
@@ -159,6 +162,54 @@ impl C13 {
                 }
             }
         }
+    }
+
+    /// Large triangles: every ordered triple of distinct, non-collinear points of {0, 1, N-1, N, N+1}^2 (first vertex
+    /// fixed by the unit) queried on a 12x12 grid of points around 0, N/2 and N and at the nine points around the
+    /// points one third and one half along each edge (next to the long sloped edges, whose cross products need more
+    /// than 53 bits).
+    fn big_triangles(&self, ni: usize, a: usize, cx: &mut Cx) {
+        let n = BIG_N[ni];
+        let coords = [0, 1, n - 1, n, n + 1];
+        let vert = |i: usize| -> P { (coords[i % 5], coords[i / 5]) };
+        let qc = [-1, 0, 1, 2, n / 2 - 1, n / 2, n / 2 + 1, n - 2, n - 1, n, n + 1, n + 2];
+        let mut count = 0u64;
+        for b in 0..25 {
+            for c in 0..25 {
+                if a == b || a == c || b == c {
+                    continue;
+                }
+                let poly = [vert(a), vert(b), vert(c)];
+                if geom::cross(poly[0], poly[1], poly[2]) == 0 {
+                    continue;
+                }
+                count += 1;
+                cx.stats.executions += 1;
+                cx.stats.transitions += 3;
+                let mut qs: Vec<P> = Vec::with_capacity(200);
+                for x in qc {
+                    for y in qc {
+                        qs.push((x, y));
+                    }
+                }
+                for e in 0..3 {
+                    let (p0, p1) = (poly[e], poly[(e + 1) % 3]);
+                    for (num, den) in [(1i64, 3i64), (1, 2)] {
+                        let base = (p0.0 + (p1.0 - p0.0) * num / den, p0.1 + (p1.1 - p0.1) * num / den);
+                        for dx in -1..=1 {
+                            for dy in -1..=1 {
+                                qs.push((base.0 + dx, base.1 + dy));
+                            }
+                        }
+                    }
+                }
+                for q in qs {
+                    self.query_poly(&poly, q, "b", cx);
+                }
+            }
+        }
+        cx.bulk_states(count, count);
+        cx.tag_n("large-triangles", count);
     }
 
     /// does some outside/inside (non-boundary) grid point have a rightward ray through a vertex?
@@ -440,7 +491,7 @@ impl Driver for C13 {
         let (g, l) = tier.pick((4, 5), (5, 5));
         Describe {
             rule: format!(
-                "[every shape and query point is given to the real code translated by this part's offset: (0,0), (-3,-2) so that coordinates straddle zero, (-1000003,-70001)] rectangles: every ordered pair of corner points on a 5x5 grid x every point of the 7x7 grid; polygons: every sequence of 3..={l} distinct vertices on a {g}x{g} grid that is a simple polygon (all orientations, start vertices, collinear vertices){} and each of them again with one consecutive repeated vertex at every position, x every point of the (g+2)^2 grid, each polygon asked per call on a fresh object and then as one object over its life (all points as built, all points again after `shift` in place by (7,-5), all points again after its vertex list is reversed in place); Manhattan paths: every sequence of 2..=4 points on a 5x5 grid with axis-parallel non-empty segments, and each of up to 3 points again with one point listed twice in a row at any position (a zero-length segment, which fixes no point to true), x width 0..=4 x every point of the 9x9 grid. A state is one shape (enumeration is duplicate-free by construction); a polygon is non-trivial when some non-boundary grid point has its rightward ray passing through a polygon vertex. Oracle: exact integer geometry (boundary by zero cross product, winding number with half-open rule, cross-checked against an independent crossing-number implementation at start-up).",
+                "[every shape and query point is given to the real code translated by this part's offset: (0,0), (-3,-2) so that coordinates straddle zero, (-1000003,-70001)] rectangles: every ordered pair of corner points on a 5x5 grid x every point of the 7x7 grid; polygons: every sequence of 3..={l} distinct vertices on a {g}x{g} grid that is a simple polygon (all orientations, start vertices, collinear vertices){} and each of them again with one consecutive repeated vertex at every position, x every point of the (g+2)^2 grid, each polygon asked per call on a fresh object and then as one object over its life (all points as built, all points again after `shift` in place by (7,-5), all points again after its vertex list is reversed in place); Manhattan paths: every sequence of 2..=4 points on a 5x5 grid with axis-parallel non-empty segments, and each of up to 3 points again with one point listed twice in a row at any position (a zero-length segment, which fixes no point to true), x width 0..=4 x every point of the 9x9 grid; [at the origin only] large triangles: every ordered triple of distinct non-collinear points of {{0, 1, N-1, N, N+1}}^2 for N = 2^27, 10^8, 2^30, queried on a 12x12 grid around 0, N/2 and N and at the nine points around the points one third and one half along each edge. A state is one shape (enumeration is duplicate-free by construction); a polygon is non-trivial when some non-boundary grid point has its rightward ray passing through a polygon vertex. Oracle: exact integer geometry (boundary by zero cross product, winding number with half-open rule, cross-checked against an independent crossing-number implementation at start-up).",
                 if tier.is_thorough() { ", plus every 6-vertex simple polygon on the 5x5 grid" } else { "" }
             ),
             assumptions: vec![
@@ -477,6 +528,13 @@ impl Driver for C13 {
         for i in 0..25 {
             v.push(format!("R:{i}"));
             v.push(format!("W:{i}"));
+        }
+        if self.off == (0, 0) {
+            for ni in 0..BIG_N.len() {
+                for a in 0..25 {
+                    v.push(format!("B:{ni}:{a}"));
+                }
+            }
         }
         v
     }
@@ -524,6 +582,10 @@ impl Driver for C13 {
                 let s: u64 = parts[1].parse().unwrap();
                 self.supplement(s, cx);
             }
+            "B" => {
+                let (ni, a): (usize, usize) = (parts[1].parse().unwrap(), parts[2].parse().unwrap());
+                self.big_triangles(ni, a, cx);
+            }
             _ => panic!("MACHINERY: C13 bad unit {unit}"),
         }
     }
@@ -536,7 +598,7 @@ impl Driver for C13 {
             cx.stats.executions += 1;
             cx.stats.transitions += pts.len() as u64;
             match kind.as_str() {
-                "p" | "s" => {
+                "p" | "s" | "b" => {
                     let base = geom::dedup_cycle(&pts);
                     if base.len() != pts.len() {
                         self.query_rep(&pts, &base, q, cx)
